@@ -3,7 +3,7 @@
 import json, sys
 pid = sys.argv[1]; wt = sys.argv[2]; out = sys.argv[3]
 VARIANT = sys.argv[4] if len(sys.argv) > 4 else ''
-sfx = {'': ('a', 'b'), 'r2': ('c', 'd'), 'r3': ('e', 'f'), 'r4': ('g', 'h')}.get(VARIANT, ('c', 'd'))
+sfx = {'': ('a', 'b'), 'r2': ('c', 'd'), 'r3': ('e', 'f'), 'r4': ('g', 'h'), 'r5': ('i', 'j')}.get(VARIANT, ('c', 'd'))
 DIV4 = '''
 
 Diversity requirement for this round: the following kinds have already been tried, do NOT use them: caches/memoisation; shortcuts for all-zero tensors, requires_grad False or no_grad; rewrites of the symmetric-extension index helper; 2-tap (Haar) fast paths; choosing an order from strides; silent dtype casts; swapped row/column filters; magnitude thresholds / denormal flushing; torch.empty buffers left partly unwritten; fast paths for batch size 1 or for many channels that fold channels into the batch; stripping zero filter taps; state written onto the module during forward (e.g. clamping self.J); aliasing or in-place modification of inputs or filter arrays; small-image (<= 8x8) non-separable fast paths. Use something else, for example: an error that only appears when the SAME module or the same autograd graph is used TWICE before or during backward (saved tensors or ctx attributes overwritten by the second forward, backward called twice with retain_graph=True), a wrong constant factor or sign in a backward pass for only ONE level / ONE orientation / ONE of the lowpass-highpass branches, an option whose handling is wrong only for a particular VALUE combination of two or three options together with a particular number of levels, an off-by-one that needs a size that is 2 or 6 modulo 8 at the second or third level, a mode string handled by prefix / membership test so that one documented mode silently behaves like another, integer division or rounding applied at the wrong point for odd sizes, a broadcasting mistake that is invisible unless batch and channel counts differ from each other in a particular way (e.g. N == C hides it, or only N > C shows it).'''
@@ -17,6 +17,12 @@ if VARIANT == 'r3':
     DIV = DIV3
 if VARIANT == 'r4':
     DIV = DIV4
+DIV5 = DIV4.replace('Use something else, for example:', 'Use something else, for example: an error confined to a code path that only a NON-DEFAULT constructor argument or a rarely used public entry point reaches (functional API in lowlevel.py / transform_funcs.py called directly, non-default o_dim / ri_dim / include_scale / skip_hps / magbias / separable flag / mode), a wrong handling of NON-SQUARE inputs (H != W, one side odd, one side shorter than the filter), a mistake that only shows for wavelets whose decomposition and reconstruction filters differ (biorthogonal: bior / rbio) or whose filters are not symmetric, a value-dependent branch on the SIGN or ordering of samples, or')
+OVR5 = '''
+
+OVERRIDE FOR THIS ROUND (time is short): deliver only ONE change, the first one (directory suffix i); ignore every mention of a second change. Aim to finish within about 15 minutes: run only the most relevant test file while iterating and the four-file command once at the end.'''
+if VARIANT == 'r5':
+    DIV = DIV5 + OVR5
 p = [json.loads(l) for l in open('/verif/properties.jsonl') if json.loads(l)['id'] == pid][0]
 print(f"""You are helping to evaluate a verification effort for the open-source Python library fbcotter/pytorch_wavelets (differentiable 1D/2D DWT, stationary WT, dual-tree complex wavelet transform, DTCWT ScatterNet, on top of PyTorch).
 
